@@ -221,7 +221,7 @@ pub fn admin_churn(sim: &mut crate::vsim::VSim, admin: u8) -> Option<String> {
         }
     }
     let st1 = sim.state();
-    if (st0.quote_asset_reserve, st0.base_asset_reserve, st0.total_position_size) != (st1.quote_asset_reserve, st1.base_asset_reserve, st1.total_position_size) || !st1.open {
+    if (st0.quote_asset_reserve, st0.base_asset_reserve, st0.total_position_size) != (st1.quote_asset_reserve, st1.base_asset_reserve, st1.total_position_size) {
         return Some(format!(
             "owner action {} changed the curve: reserves ({}, {}) net {} open {} -> ({}, {}) net {} open {}",
             admin, st0.quote_asset_reserve, st0.base_asset_reserve, st0.total_position_size, st0.open, st1.quote_asset_reserve, st1.base_asset_reserve, st1.total_position_size, st1.open
